@@ -10,7 +10,6 @@ import (
 	"path/filepath"
 	"strings"
 
-	"github.com/JunNishimura/Goit/internal/file"
 	"github.com/JunNishimura/Goit/internal/object"
 	"github.com/JunNishimura/Goit/internal/store"
 	"github.com/spf13/cobra"
@@ -27,13 +26,9 @@ func restoreIndex(rootGoitPath, path string, index *store.Index, tree *object.Tr
 	if isEntryFound {
 		// restore index
 		if isNodeFound { // if the file is updated
-			// change hash
-			isUpdated, err := index.Update(rootGoitPath, node.Hash, []byte(path))
-			if err != nil {
+			// change hash (nothing to do if the entry already equals HEAD)
+			if _, err := index.Update(rootGoitPath, node.Hash, []byte(path)); err != nil {
 				return fmt.Errorf("fail to update index: %w", err)
-			}
-			if !isUpdated {
-				return errors.New("fail to restore index")
 			}
 		} else { // if the file is newly added
 			// delete entry
@@ -43,12 +38,8 @@ func restoreIndex(rootGoitPath, path string, index *store.Index, tree *object.Tr
 		}
 	} else { // if the path is not registered in the index,
 		if isNodeFound { // if the file is deleted
-			isUpdated, err := index.Update(rootGoitPath, node.Hash, []byte(path))
-			if err != nil {
+			if _, err := index.Update(rootGoitPath, node.Hash, []byte(path)); err != nil {
 				return fmt.Errorf("fail to update index: %w", err)
-			}
-			if !isUpdated {
-				return errors.New("fail to restore index")
 			}
 		} else {
 			return fmt.Errorf("error: pathspec '%s' did not match any file(s) known to goit", path)
@@ -98,6 +89,57 @@ func restoreWorkingDirectory(rootGoitPath, path string, index *store.Index) erro
 	return nil
 }
 
+func cleanPathArg(arg string) string {
+	cleanedArg := filepath.Clean(arg)
+	return strings.ReplaceAll(cleanedArg, `\`, "/")
+}
+
+// paths known to the index that the argument names: the entry itself or the entries beneath the directory
+func indexTargets(path string, index *store.Index) []string {
+	if _, _, isEntryFound := index.GetEntry([]byte(path)); isEntryFound {
+		return []string{path}
+	}
+	var paths []string
+	for _, entry := range index.GetEntriesByDirectory(path) {
+		paths = append(paths, string(entry.Path))
+	}
+	return paths
+}
+
+// paths known to the index or to the HEAD tree that the argument names
+func stagedTargets(path string, index *store.Index, tree *object.Tree) []string {
+	paths := indexTargets(path, index)
+	if node, isNodeFound := object.GetNode(tree.Children, path); isNodeFound {
+		if len(node.Children) == 0 {
+			paths = append(paths, path)
+		} else {
+			// GetPaths starts at the node's own name: put the parent directory back in front
+			parent := filepath.ToSlash(filepath.Dir(path))
+			for _, nodePath := range node.GetPaths() {
+				if parent != "." {
+					nodePath = parent + "/" + nodePath
+				}
+				paths = append(paths, nodePath)
+			}
+		}
+	}
+
+	return paths
+}
+
+// a path may be named by several arguments, or be known to both the index and the HEAD tree
+func uniquePaths(paths []string) []string {
+	seen := make(map[string]struct{})
+	var unique []string
+	for _, p := range paths {
+		if _, ok := seen[p]; !ok {
+			seen[p] = struct{}{}
+			unique = append(unique, p)
+		}
+	}
+	return unique
+}
+
 // restoreCmd represents the restore command
 var restoreCmd = &cobra.Command{
 	Use:   "restore",
@@ -140,134 +182,36 @@ var restoreCmd = &cobra.Command{
 				return fmt.Errorf("fail to get tree: %w", err)
 			}
 
+			// the index and the HEAD tree decide what an argument names, not the working tree;
+			// every argument is resolved before anything is changed
+			var targetPaths []string
 			for _, arg := range args {
-				argAbsPath, err := filepath.Abs(arg)
-				if err != nil {
-					return fmt.Errorf("fail to get arg abs path: %w", err)
+				paths := stagedTargets(cleanPathArg(arg), client.Idx, tree)
+				if len(paths) == 0 {
+					return fmt.Errorf("error: pathspec '%s' did not match any file(s) known to goit", arg)
 				}
-				f, err := os.Stat(argAbsPath)
-				if os.IsNotExist(err) { // even if the file is not found, the file might be the deleted file
-					// get node
-					cleanedArg := filepath.Clean(arg)
-					cleanedArg = strings.ReplaceAll(cleanedArg, `\`, "/")
-					node, isNodeFound := object.GetNode(tree.Children, cleanedArg)
-					if !isNodeFound {
-						return fmt.Errorf("error: pathspec '%s' did not match any file(s) known to goit", arg)
-					}
-
-					// check if the arg is dir or not
-					if len(node.Children) > 0 { // node is directory
-						paths := node.GetPaths()
-
-						for _, path := range paths {
-							if err := restoreIndex(client.RootGoitPath, path, client.Idx, tree); err != nil {
-								return err
-							}
-						}
-					} else { // node is a file
-						if err := restoreIndex(client.RootGoitPath, cleanedArg, client.Idx, tree); err != nil {
-							return err
-						}
-					}
-
-					continue
-				}
-
-				if f.IsDir() { // directory
-					filePaths, err := file.GetFilePathsUnderDirectory(argAbsPath)
-					if err != nil {
-						return fmt.Errorf("fail to get file path under directory: %w", err)
-					}
-					for _, filePath := range filePaths {
-						curPath, err := os.Getwd()
-						if err != nil {
-							return fmt.Errorf("fail to get current directory: %w", err)
-						}
-						relPath, err := filepath.Rel(curPath, filePath)
-						if err != nil {
-							return fmt.Errorf("fail to get relative path: %w", err)
-						}
-						cleanedRelPath := strings.ReplaceAll(relPath, `\`, "/")
-
-						// restore index
-						if err := restoreIndex(client.RootGoitPath, cleanedRelPath, client.Idx, tree); err != nil {
-							return err
-						}
-					}
-				} else { // file
-					cleanedArg := filepath.Clean(arg)
-					cleanedArg = strings.ReplaceAll(cleanedArg, `\`, "/")
-
-					// restore index
-					if err := restoreIndex(client.RootGoitPath, cleanedArg, client.Idx, tree); err != nil {
-						return err
-					}
+				targetPaths = append(targetPaths, paths...)
+			}
+			for _, path := range uniquePaths(targetPaths) {
+				if err := restoreIndex(client.RootGoitPath, path, client.Idx, tree); err != nil {
+					return err
 				}
 			}
 		} else {
 			// execute restore working directory
+			// the index decides what an argument names, whether or not the path exists on disk;
+			// every argument is resolved before anything is changed
+			var targetPaths []string
 			for _, arg := range args {
-				argAbsPath, err := filepath.Abs(arg)
-				if err != nil {
-					return fmt.Errorf("fail to get arg abs path: %w", err)
+				paths := indexTargets(cleanPathArg(arg), client.Idx)
+				if len(paths) == 0 {
+					return fmt.Errorf("error: pathspec '%s' did not match any file(s) known to goit", arg)
 				}
-				f, err := os.Stat(argAbsPath)
-				if os.IsNotExist(err) {
-					// check if the arg is registered in the index
-					cleanedArg := filepath.Clean(arg)
-					cleanedArg = strings.ReplaceAll(cleanedArg, `\`, "/")
-					_, _, isRegistered := client.Idx.GetEntry([]byte(cleanedArg))
-					isRegisteredAsDir := client.Idx.IsRegisteredAsDirectory(cleanedArg)
-
-					if !(isRegistered || isRegisteredAsDir) {
-						return fmt.Errorf("error: pathspec '%s' did not match any file(s) known to goit", arg)
-					}
-
-					if isRegisteredAsDir {
-						entries := client.Idx.GetEntriesByDirectory(cleanedArg)
-						for _, entry := range entries {
-							if err := restoreWorkingDirectory(client.RootGoitPath, string(entry.Path), client.Idx); err != nil {
-								return err
-							}
-						}
-					} else {
-						if err := restoreWorkingDirectory(client.RootGoitPath, cleanedArg, client.Idx); err != nil {
-							return err
-						}
-					}
-
-					continue
-				}
-
-				if f.IsDir() { // directory
-					filePaths, err := file.GetFilePathsUnderDirectory(argAbsPath)
-					if err != nil {
-						return fmt.Errorf("fail to get file path under directory: %w", err)
-					}
-					for _, filePath := range filePaths {
-						curPath, err := os.Getwd()
-						if err != nil {
-							return fmt.Errorf("fail to get current directory: %w", err)
-						}
-						relPath, err := filepath.Rel(curPath, filePath)
-						if err != nil {
-							return fmt.Errorf("fail to get relative path: %w", err)
-						}
-						cleanedRelPath := strings.ReplaceAll(relPath, `\`, "/")
-
-						// restore working directory
-						if err := restoreWorkingDirectory(client.RootGoitPath, cleanedRelPath, client.Idx); err != nil {
-							return err
-						}
-					}
-				} else { // file
-					cleanedArg := filepath.Clean(arg)
-					cleanedArg = strings.ReplaceAll(cleanedArg, `\`, "/")
-
-					// restore working directory
-					if err := restoreWorkingDirectory(client.RootGoitPath, cleanedArg, client.Idx); err != nil {
-						return err
-					}
+				targetPaths = append(targetPaths, paths...)
+			}
+			for _, path := range uniquePaths(targetPaths) {
+				if err := restoreWorkingDirectory(client.RootGoitPath, path, client.Idx); err != nil {
+					return err
 				}
 			}
 		}
